@@ -9,6 +9,7 @@ import (
 
 	"github.com/kelindar/bitmap"
 	"github.com/kelindar/column/commit"
+	"github.com/kelindar/iostream"
 )
 
 //@ inline binary.
@@ -984,4 +985,62 @@ func vLemmaSnapshot(c *Collection, dst io.Writer, busy *commit.Log) {
 		vAssert("copy-result-returned", err == vCopyErr && vCopies == 1)
 		vAssert("recorder-released", c.record == nil)
 	}
+}
+
+// ---------------------------------------------------------------------------------------------
+// Restore (C13, C07, C08). The per-block step of readState - the body of the Query callback - returns an error
+// whenever a read of the block failed (so Query rolls the block's transaction back: no partial block is committed).
+//
+//@ loop target=column.(*Collection).readState$1$1 index=0 props=C13
+func vLoopReadStateBuffers(txn *Txn) {
+	vInvariant(!commit.VReadFailed())
+	vBody()
+}
+
+//@ contract target=column.(*txnPool).acquirePage use verify=no
+func vContractAcquirePage(p *txnPool, columnName string) (b *commit.Buffer) {
+	b = p.acquirePage(columnName)
+	vEnsures("fresh-buffer", b != nil && vFresh(b))
+	return
+}
+
+//@ lemma props=C13,C07
+func vLemmaReadStateStep(owner *Collection, chunkIn int, columns uint64, r *iostream.Reader, streamErr error) {
+	vAssume(owner != nil && owner.txns != nil && streamErr != nil && io.EOF != nil && errUnexpectedEOF != nil && chunkIn >= 0 && chunkIn < 1<<17)
+	commit.VResetStream(streamErr)
+	txn := &Txn{owner: owner, dirty: make(bitmap.Bitmap, 0, 4)}
+	commits := make(map[commit.Chunk]uint64)
+	var err error
+	chunk := chunkIn
+	var res error
+	vCallAnonErr(&res, "column.(*Collection).readState$1$1", []any{&chunk, &commits, &err, &r, &columns}, txn)
+	vAssert("read-failure-is-an-error", !commit.VReadFailed() || res != nil)
+	vAssert("block-marked-dirty", int(uint32(chunkIn)>>6) < len(txn.dirty) && vBit(txn.dirty, uint32(chunkIn)))
+}
+
+// Restore replays a logged commit if and only if its id is larger than the id stored for its block.
+//
+//@ contract target=column.(*Collection).Replay use verify=no
+func vContractReplayGhost(c *Collection, change commit.Commit) (err error) {
+	err = c.Replay(change)
+	vDidReplay++
+	return
+}
+
+var vDidReplay int
+
+//@ lemma props=C08,C13
+func vLemmaRestoreReconcile(c *Collection, stored uint64, has bool, change commit.Commit) {
+	commits := make(map[commit.Chunk]uint64)
+	if has {
+		commits[change.Chunk] = stored
+	}
+	vDidReplay = 0
+	var res error
+	vCallAnonErr(&res, "column.(*Collection).Restore$1", []any{&commits, &c}, change)
+	last := uint64(0)
+	if has {
+		last = stored
+	}
+	vAssert("replays-iff-id-greater", (vDidReplay == 1) == (change.ID > last) && vDidReplay <= 1)
 }
